@@ -387,6 +387,9 @@ func (e *env) observe(s *session, c call, o observed, mark int64) {
 			rep.class("observed." + tag + ".cast-refused")
 			if c.Class == "stream:castfail-second" {
 				rep.class("observed." + tag + ".cast-refused-after-first-column-cast")
+				if c.IVariant == "x-int32-w-misnamed" {
+					rep.class("observed." + tag + ".cast-refused-misnamed-after-first-column-cast")
+				}
 			}
 		case strings.Contains(m, "external input resolve failed") || strings.Contains(m, "resolving external request"):
 			rep.class("observed." + tag + ".external-resolve-failed")
